@@ -191,7 +191,9 @@ namespace _fmt_basics {
 			bool plus_becomes_space = false, bool use_capitals = false,
 			locale_options locale_opts = {}) {
 		if(number < 0) {
-			auto absv = ~static_cast<typename std::make_unsigned_t<T>>(number) + 1;
+			// Convert back to the unsigned type: for T narrower than int the arithmetic is done in (signed) int.
+			using UT = typename std::make_unsigned_t<T>;
+			auto absv = static_cast<UT>(~static_cast<UT>(number) + 1);
 			print_digits(sink, absv, true, radix, width, precision, padding,
 					left_justify, group_thousands, always_sign, plus_becomes_space, use_capitals,
 					locale_opts);
